@@ -2,7 +2,7 @@ import Drpc.Driver.Util
 import Drpc.Server.Serve
 /-
   line protocol for the Serve / Tracker model:
-  `serve ops=<op>,<op>,…` with op ∈ connect | cancel | accepterr:temp | accepterr:perm | end:<conn>
+  `serve ops=<op>,<op>,…` with op ∈ connect | burst (two connections at once) | cancel | accepterr:temp | accepterr:perm | end:<conn>
   After every op the model runs every thread until none is enabled (timer branch of the sleep) and
   prints `[ret=<-|nil|err> returned=<0|1> closes=<n> served=<ids> ended=<ids>]`.
   `cancel` also lets every running ServeOne return (the assumption of the progress theorem: a
@@ -40,6 +40,7 @@ def obs (s : St) : String :=
 def doOp (s : St) (op : String) : Option St :=
   match op.splitOn ":" with
   | ["connect"] => some ((envStep s .connect).getD s)
+  | ["burst"] => some ((envStep ((envStep s .connect).getD s) .connect).getD ((envStep s .connect).getD s))
   | ["cancel"] => some (endAll (settle ((envStep s .cancel).getD s) 10000))
   | ["accepterr", "temp"] => some ((envStep s (.acceptErr .temporary)).getD s)
   | ["accepterr", "perm"] => some ((envStep s (.acceptErr .permanent)).getD s)
